@@ -53,10 +53,10 @@ not_applicable = {
 }
 claimed.update({
  "C10": dict(category="other",
-   text="Decides structural necessary conditions: the stored signature is the configured signer's SignHash over the commitment of the very certificate object that is returned, sent and serialised, with no covered field written after hashing; the computed set of fields entering the commitment / identity hashes is forwarded on the wire, has JSON keys and is restored; every proto field takes its same-named source (both claim kinds agree); hand-written JSON codecs agree key path by key path per field; every Hash() covers its struct except a reasoned table. Collision-freeness ('changing a field changes the commitment') beyond 'the field is read into the hash input at a fixed-width position' is not decided.",
+   text="Decides structural necessary conditions: the stored signature is the configured signer's SignHash over the commitment of the very certificate object that is returned, sent and serialised, with no covered field written after hashing and no successful return that bypasses SignHash; the byte layout of Hash / PPHashToSign / FEPHashToSign including their per-exit lists (one element per exit, whole range, in order, each in storage of its own) and the agreement of the global-index integer between both commitments and the wire; the computed set of fields entering the commitment / identity hashes is forwarded on the wire, has JSON keys and is restored; every proto field takes its same-named source (both claim kinds agree); hand-written JSON codecs agree key path by key path per field; every Hash() covers its struct except a reasoned table. Collision-freeness ('changing a field changes the commitment') beyond 'the field is read into the hash input at a fixed-width position' is not decided.",
    ref="4 C10", technique="static analysis: provenance / mod-set rules on SSA, computed read sets, field-map and JSON key-path agreement"),
  "C11": dict(category="other",
-   text="Decides structural necessary conditions of mirroring the L1 contracts: topic constants are the ABI signatures (from the contract bindings) of the events their handlers parse; handler and ProcessBlock field maps; hash/GER layouts against the contract; index = initial + counter with +1 only after a successful append; announced-root / leaf-count mismatch latches the halt; rollup exit tree updated with {RollupID-1, ExitRoot} only for a non-zero changed root and the returned root recorded; UNIQUE GER and bound lookups. Value equality with the contracts for all histories is not decided.",
+   text="Decides structural necessary conditions of mirroring the L1 contracts: topic constants are the ABI signatures (from the contract bindings) of the events their handlers parse; handler and ProcessBlock field maps; hash/GER layouts against the contract; index = initial + counter with +1 only after a successful append; announced-root / leaf-count mismatch latches the halt; rollup exit tree updated with {RollupID-1, ExitRoot} only for a non-zero changed root and the returned root recorded; UNIQUE GER and bound lookups; first/last accessors order by chain position. Value equality with the contracts for all histories is not decided.",
    ref="4 C11", technique="static analysis: ABI cross-check, field-map provenance, layout extraction, dominance, DDL reader"),
  "C12": dict(category="other",
    text="Decides the proof-assembly half structurally: one info leaf by leaf_index; L1 branch proves against its MainnetExitRoot; L2 branch proves against the local exit root looked up under its RollupExitRoot; rollup proof for (network, RollupExitRoot); response carries those and the same leaf; every lookup error ends the handler before the 200 answer. The two binary searches (monotonicity + midpoint arithmetic over runtime data) are declined.",
@@ -65,7 +65,7 @@ claimed.update({
    text="Decides structural necessary conditions: the single InjectGER call is reachable only after IsGERInjected of the same value returned (false, nil); that value is GetLatestInfoUntilBlock(sampled finalized block).GlobalExitRoot of a successful query; finality sampled with the configured block tag whose only writer is the constructor; success returns retry target 0 (next tick samples again). Liveness under arbitrary relative speeds is not decided.",
    ref="4 C15", technique="static analysis: dominance, provenance, who-may-call/write"),
  "C17": dict(category="other",
-   text="Decides the comparison-only part exactly: both Range filters keep an element iff fromBlock <= BlockNum <= toBlock (all written forms of the comparisons recognised), append the element itself in source order, copy every other field; sub-range precondition; every cut keeps the first block; shrink step, loop variable and exit conditions of limitCertSize; last-block clamp. Maximality, size monotonicity (float) and BlockRange.Gap (saturating arithmetic) are declined.",
+   text="Decides the comparison-only part exactly: both Range filters keep an element iff fromBlock <= BlockNum <= toBlock (all written forms of the comparisons recognised), append the element itself in source order, copy every other field; sub-range precondition; every cut keeps the first block; shrink step, loop variable and exit conditions of limitCertSize; last-block clamp; the shape of BlockRange.Gap's touch test (no wrapping arithmetic in conditions, saturating predecessor, empty iff touching). Maximality, size monotonicity (float) and the numeric values of non-empty gaps are declined.",
    ref="4 C17", technique="static analysis: exact comparison/guard analysis on SSA, provenance"),
  "C19": dict(category="other",
    text="Decides 'the same value everywhere' structurally: at each of the four encoding sites the encoder's arguments are MainnetFlag, RollupIndex, LeafIndex of one object in order; the decoder's results go to the same-named fields; each carrier uses the encoding its consumer expects; any new encoder call site or hand-rolled composition is reported. Round-trip and bit layout of GenerateGlobalIndex / DecodeGlobalIndex (byte-length arithmetic on big.Int) are declined.",
